@@ -77,7 +77,20 @@ def document(kind, coords, units, gt, spread, href, focus, shape, chain):
         attrs += f' gradientTransform="{g}"'
     if spread != "pad":
         attrs += f' spreadMethod="{spread}"'
-    if href == "none":
+    if href in ("partial", "partial-after"):
+        # the template carries units / transform / spread / all coordinates and is itself used by a second shape;
+        # the referencing gradient overrides ONE coordinate.  "-after": the template is defined after its user.
+        if kind == "linear":
+            over = ' x1="30"' if units == "userSpaceOnUse" else ' x1=".3"'
+        else:
+            over = ' cx="40"' if units == "userSpaceOnUse" else ' cx=".4"'
+        tattrs = attrs if coords != "defaults" else attrs + (COORDS[(kind, "numbers", units)])
+        if kind == "radial" and coords == "defaults":
+            tattrs += FOCUS[focus][units] if focus != "none" and FOCUS[focus][units] not in tattrs else ""
+        t = f'<{tag} id="t"{tattrs}>{STOPS}</{tag}>'
+        gdef = f'<{tag} id="g" xlink:href="#t"{over}/>'
+        defs = (t + gdef) if href == "partial" else (gdef + t)
+    elif href == "none":
         defs = f'<{tag} id="g"{attrs}>{STOPS}</{tag}>'
     elif href == "attrs":
         # template supplies every attribute, the referencing gradient only its stops
@@ -106,9 +119,10 @@ def document(kind, coords, units, gt, spread, href, focus, shape, chain):
         defs = f'<{tag} id="t2">{STOPS}</{tag}><{tag} id="t1" xlink:href="#t2"{a1}/><{tag} id="g" xlink:href="#t1"{own}/>'
     st, gtrans = CHAINS[chain]
     body = SHAPES[shape].format(t=st)
+    extra = '<rect x="2" y="2" width="9" height="7" fill="url(#t)"/>' if href in ("partial", "partial-after") else ""
     if gtrans:
         body = f'<g transform="{gtrans}">{body}</g>'
-    return f'<svg {NS} viewBox="0 0 110 95"><defs>{defs}</defs>{body}</svg>'
+    return f'<svg {NS} viewBox="0 0 110 95"><defs>{defs}</defs>{body}{extra}</svg>'
 
 
 def judge(doc, tier, seed):
@@ -126,8 +140,13 @@ def judge(doc, tier, seed):
     gl_s = [l for l in S.leaves if l.paint[0] == "grad"]
     gl_o = [l for l in O.leaves if l.paint[0] == "grad"]
     stats = {"compared": 0}
-    if len(gl_s) != 1 or len(gl_o) != 1:
-        return o, f"expected one gradient-filled leaf in source and output, got {len(gl_s)} and {len(gl_o)}", "render", None, stats, out
+    if len(gl_s) < 1 or len(gl_s) != len(gl_o):
+        return o, f"gradient-filled leaves: {len(gl_s)} in the source, {len(gl_o)} in the output", "render", None, stats, out
+    if len(gl_s) > 1:
+        # further gradient-filled shapes (a template used directly): whole-document comparison
+        r = scene.compare(doc, out, G=G, phase=seed % 8)
+        if not r["ok"]:
+            return o, r["why"], "render", None, stats, out
     ls, lo = gl_s[0], gl_o[0]
     inside = (cs[ls.index] == 1) & (co[lo.index] == 1)
     idx = np.nonzero(inside)[0]
@@ -189,15 +208,17 @@ def all_cases(tier):
     units = ["objectBoundingBox", "userSpaceOnUse"]
     gts = list(GT)
     if tier == "quick":
-        spreads, hrefs, foci, shapes, chains = ["pad", "reflect"], ["none", "attrs", "chain", "chain3", "chain3own"], ["none", "fxfy", "fr", "fxpct"], ["rect", "path"], ["none", "translate", "rotscale", "groupmatrix"]
+        spreads, hrefs, foci, shapes, chains = ["pad", "reflect"], ["none", "attrs", "chain", "chain3", "chain3own", "partial", "partial-after"], ["none", "fxfy", "fr", "fxpct"], ["rect", "path"], ["none", "translate", "rotscale", "groupmatrix"]
     else:
-        spreads, hrefs, foci, shapes, chains = ["pad", "reflect", "repeat"], ["none", "attrs", "stops", "chain", "chain3", "chain3own"], list(FOCUS), list(SHAPES), list(CHAINS)
+        spreads, hrefs, foci, shapes, chains = ["pad", "reflect", "repeat"], ["none", "attrs", "stops", "chain", "chain3", "chain3own", "partial", "partial-after"], list(FOCUS), list(SHAPES), list(CHAINS)
     for kind in kinds:
         fs = foci if kind == "radial" else ["none"]
         for c, u, g, sp, h, f, sh, ch in itertools.product(coords, units, gts, spreads, hrefs, fs, shapes, chains):
             if tier == "quick" and sp == "reflect" and (h not in ("none", "chain3") or ch == "none"):
                 continue
             if tier == "quick" and h in ("chain3", "chain3own") and (c == "percent" or g in ("translate", "matrix")):
+                continue
+            if h in ("partial", "partial-after") and (c == "percent" or (tier == "quick" and (g in ("matrix",) or sh == "path"))):
                 continue
             if tier == "quick" and sh == "path" and (g in ("translate",) or c == "percent"):
                 continue
